@@ -1,4 +1,5 @@
 import MtailVerif.Driver.Util
+import MtailVerif.Driver.C08
 import MtailVerif.Model.MetricSpec
 namespace MtailVerif.Driver.C09
 open MtailVerif MtailVerif.Driver MtailVerif.Metric
@@ -38,6 +39,7 @@ def runAll (m : Metric P) (outs : List String) : Nat → List String → Option 
 
 def handle (f : List String) : String :=
   match f with
+  | "conc" :: _ => C08.handle f
   | "ops" :: _kind :: _typ :: nkeys :: rest =>
     let opsStr := rest.headD "."
     let ops := if opsStr = "." ∨ opsStr = "" then [] else opsStr.splitOn ";"
